@@ -591,6 +591,12 @@ impl<T: GuestMemory + ?Sized> Bytes<GuestAddress> for T {
     type E = Error;
 
     fn write(&self, buf: &[u8], addr: GuestAddress) -> Result<usize> {
+        // As documented on `Bytes::write`: an empty buffer is always `Ok(0)`, even if `addr`
+        // is otherwise out of bounds.
+        if buf.is_empty() {
+            return Ok(0);
+        }
+
         self.try_access(
             buf.len(),
             addr,
@@ -601,6 +607,12 @@ impl<T: GuestMemory + ?Sized> Bytes<GuestAddress> for T {
     }
 
     fn read(&self, buf: &mut [u8], addr: GuestAddress) -> Result<usize> {
+        // As documented on `Bytes::read`: an empty buffer is always `Ok(0)`, even if `addr`
+        // is otherwise out of bounds.
+        if buf.is_empty() {
+            return Ok(0);
+        }
+
         self.try_access(
             buf.len(),
             addr,
